@@ -103,8 +103,9 @@ def run_plans(chk, bindir, inits, plans, tag, nproc=NPROC, timeout=600):
 # ------------------------------------------------------------------------------------------
 def _judge_part(args):
     path, n = args
+    md = os.path.join(core.WORK, "tlc-meta", "FsTreeTrace-%d-%s" % (os.getpid(), os.path.basename(path)))
     res = core.run_tlc("FsTreeTrace.tla", "FsTreeTrace.cfg", workers=1, env={"TRACE": path}, timeout=1500,
-                       xmx="3g", xss="512m", deque=True)
+                       xmx="3g", xss="512m", deque=True, metadir=md)
     core.tlc_must_pass(res, "FsTreeTrace")
     j = res.printed("JUDGED")
     if len(j) != 1 or j[0]["n"] != n:
@@ -241,23 +242,28 @@ def report_incidents(chk, incidents, plans, tagname, inits=()):
 # ------------------------------------------------------------------------------------------
 # TLC as generator
 # ------------------------------------------------------------------------------------------
-def gen_sequences(chk, mode, depth, opset, simulate=None, workers=8):
+def gen_sequences(chk, mode, depth, opset, npicks=0, workers=8):
+    """mode "enum": every sequence of length depth; mode "picks": npicks seeded random sequences of
+    length depth, decoded by TLC against the evolving model tree."""
     cfg = os.path.join(chk.work, "FsTreeGen_%s_%d_%s.cfg" % (mode, depth, opset))
     with open(cfg, "w") as f:
         f.write('CONSTANTS\n  Mode = "%s"\n  Depth = %d\n  OpSet = "%s"\nINIT Init\nNEXT Next\nINVARIANTS Emit Sane\nCHECK_DEADLOCK FALSE\n'
                 % (mode, depth, opset))
-    res = core.run_tlc("FsTreeGen.tla", cfg, workers=workers, timeout=1500, xmx="6g",
-                       simulate=simulate, depth=(depth + 1) if simulate else None, seed=chk.seed if simulate else None)
-    if simulate is None:
-        core.tlc_must_pass(res, "FsTreeGen " + mode)
-    elif res.errors:
-        raise core.ToolError("FsTreeGen simulate failed: " + "\n".join(res.out.splitlines()[-20:]))
+    env = {}
+    if mode == "picks":
+        rng = random.Random(chk.seed * 7919 + depth)
+        ppath = os.path.join(chk.work, "picks_%d.ndjson" % depth)
+        core.write_ndjson(ppath, [{"init": rng.randint(1, 10), "picks": [[rng.randint(0, 10**6) for _ in range(4)]
+                                                                        for _ in range(rng.randint(2, depth))]}
+                                  for _ in range(npicks)])
+        env["PICKS"] = ppath
+    res = core.run_tlc("FsTreeGen.tla", cfg, workers=workers, timeout=1500, xmx="6g", env=env)
+    core.tlc_must_pass(res, "FsTreeGen " + mode)
     inits = res.printed("I")[0]["trees"]
     plans = res.printed("P")
-    if not plans:
-        raise core.ToolError("FsTreeGen produced no plans:\n" + res.out[-2000:])
-    if simulate is None:
-        chk.add_tlc(res)
+    if not plans or (mode == "picks" and len(plans) != npicks):
+        raise core.ToolError("FsTreeGen produced %d plans:\n%s" % (len(plans), res.out[-2000:]))
+    chk.add_tlc(res)
     return inits, plans, res
 
 
@@ -525,9 +531,7 @@ def run(tier):
         keep = [p for k, p in enumerate(plans1) if p["ops"][0]["op"] not in ("copy", "rename") or k % 3 == chk.seed % 3]
         plans1 = keep
     nsim, depth = (1500, 4) if tier == "quick" else (20000, 6)
-    _, plans_s, sres = gen_sequences(chk, "sim", depth, "all", simulate=nsim)
-    chk.states += sres.distinct
-    chk.transitions += sres.generated
+    _, plans_s, _ = gen_sequences(chk, "picks", depth, "all", npicks=nsim)
     plans2 = []
     if tier == "thorough":
         _, plans2, _ = gen_sequences(chk, "enum", 2, "core")
